@@ -36,6 +36,7 @@ Clause(ev, R) ==
             IF R[ev.i].t # "grid" THEN "harness_register_kind"
             ELSE IF ~TZ!DocEq(ev.before, R[ev.i].abs) THEN "register_drift_" \o TZ!DiffClause(ev.before, R[ev.i].abs)
             ELSE IF ~TZ!DocEq(ev.after, ev.before) THEN "dump_changed_source_" \o TZ!DiffClause(ev.after, ev.before)
+            ELSE IF ev.ka # ev.kb THEN "dump_changed_source_row_keys"     \* the row dicts themselves: keys present before = keys present after
             ELSE IF ev.text # ev.text2 THEN "dump_not_deterministic"
             ELSE (LET r == Result(ZRead(ev.text, FALSE))
                   IN IF ~r.ok THEN "dump_unreadable_" \o r.why
@@ -45,6 +46,7 @@ Clause(ev, R) ==
             IF R[ev.i].t # "grid" THEN "harness_register_kind"
             ELSE IF ~TZ!DocEq(ev.before, R[ev.i].abs) THEN "register_drift_" \o TZ!DiffClause(ev.before, R[ev.i].abs)
             ELSE IF ~TZ!DocEq(ev.after, ev.before) THEN "dump_changed_source_" \o TZ!DiffClause(ev.after, ev.before)
+            ELSE IF ev.ka # ev.kb THEN "dump_changed_source_row_keys"     \* the row dicts themselves: keys present before = keys present after
             ELSE IF ev.tree # ev.tree2 THEN "dump_not_deterministic"
             ELSE (LET r == JRead(ev.tree, FALSE)
                   IN IF ~r.ok THEN "dump_unreadable_" \o r.why
